@@ -1170,7 +1170,11 @@ func settle(c *cdi.Cache, dirs []string, probes []string, deadline time.Duration
 	var got cacheObs
 	for {
 		got = observeCache(c, probes, true)
-		if (got.key() == want.key() && fmt.Sprint(got.DirErrs) == fmt.Sprint(wantDirErrs)) || time.Now().After(end) {
+		if got.key() == want.key() && fmt.Sprint(got.DirErrs) == fmt.Sprint(wantDirErrs) {
+			return got
+		}
+		if time.Now().After(end) {
+			settleDeadlines++
 			return got
 		}
 		time.Sleep(5 * time.Millisecond)
@@ -1191,11 +1195,15 @@ func settleQuiet(c *cdi.Cache, dirs []string, probes []string, deadline time.Dur
 			return observeCache(c, probes, true)
 		}
 		if time.Now().After(end) {
+			settleDeadlines++
 			return got
 		}
 		time.Sleep(5 * time.Millisecond)
 	}
 }
+
+// settleDeadlines counts the observations of automatic-refresh caches which did not converge within their deadline.
+var settleDeadlines int
 
 // unwatchableDirs: the configured directories that do not exist or lie below a regular file (sorted, without repetitions):
 // what an automatic-refresh cache reports as directory errors.
